@@ -42,7 +42,7 @@ DEFAULTS: Dict[str, Any] = dict(
     max_depth=3, ops_per_step=(2, 5), big_corr=False, autograd=False, bwd_annotation=True, step_gap=(0, 1, 1, 7),
     pre_ops=1, post_ops=1, first_step=None, file_order="time", p_plain_rt=0.08, kernel_durs=(0, 1, 5, 20, 60),
     launch_lat=(0, 0, 1, 3, 10), queue_lat=(0, 0, 1, 5, 40), device_pid=0, repeat_names=False, annotation_nest=False,
-    p_leaf_children=(0, 3), ops_pool=None, p_unlaunched=0.0, sync_straddle=False, source_counters=False, outer_frame=False, corr_zero=False, small_corr=False, tid_base=None, tid_desc=False, post_launch=False, exotic_launch=False, multi_process=False, graph_launch=False, p_zero_launch=0.0, nested_driver=False, p_annotation=0.15, main_autograd_op=False,
+    p_leaf_children=(0, 3), ops_pool=None, p_unlaunched=0.0, sync_straddle=False, source_counters=False, outer_frame=False, corr_zero=False, small_corr=False, tid_base=None, tid_desc=False, post_launch=False, exotic_launch=False, multi_process=False, graph_launch=False, p_zero_launch=0.0, nested_driver=False, p_annotation=0.15, main_autograd_op=False, pid_tid_clash=False,
 )
 
 
@@ -77,6 +77,10 @@ class Sim:
         self.ops_pool = p["ops_pool"] or (OPS[:3] if p["repeat_names"] else OPS)
         # Linux thread ids go up to 2^22; Kineto records them as they are (the call-stack roots are -tid)
         self.tid0 = p["tid_base"] + 16 * self.rank if p["tid_base"] else self.host_pid
+        if p.get("pid_tid_clash") and not p["tid_base"] and not p["multi_process"]:
+            # the trainer is process N of its container (main thread: pid N / tid N) and drives GPU N, one of whose streams has the
+            # id N: host thread and device stream share the (pid, tid) pair and are told apart by the stream argument only
+            self.host_pid = self.tid0 = p["device_pid"] = self.streams[0]
         self.helper = {"t": 0, "tid": self.tid0 + 7, "streams": self.streams}
         self.used_zero = False
 
@@ -483,6 +487,7 @@ def random_params(rnd: random.Random, tier: str, **over: Any) -> Dict[str, Any]:
     p["tid_desc"] = rnd.random() < 0.3
     p["post_launch"] = rnd.random() < 0.3
     p["multi_process"] = rnd.random() < 0.2
+    p["pid_tid_clash"] = rnd.random() < 0.08
     if p["autograd"]:
         p["n_threads"] = max(2, p["n_threads"])
     if tier == "thorough" and rnd.random() < 0.15:
